@@ -38,3 +38,9 @@ def run(rep: Report, repo: Repo, tier: str) -> None:
     # operating system lists
     with rep.isolated():
         _fsr.rule_recursion_switch(rep, repo, "C17-R10", empty_top_clause=True)
+    # which sub-directories survive auto-exclusion does not depend on the order in which their files are listed
+    with rep.isolated():
+        _fsr.rule_prechecks_filtered(rep, repo, "C17-R11")
+    # ... nor on whether a parent of the tree is itself reached through a link
+    with rep.isolated():
+        _fsr.rule_symlinked_subdirs(rep, repo, "C17-R12")
